@@ -476,3 +476,31 @@ def t_dict_accumulate(a, b):
 def t_divmod_variants(a, b):
     q, r = a // b, a % b
     return q, r, -(-a // b)
+
+
+def t_iter_resume(a, b):
+    it = iter([a, b, a, b])
+    first = []
+    for x in it:
+        first.append(x)
+        if len(first) == 2:
+            break
+    rest = [y for y in it]
+    return first, rest, iter(it) is it
+
+
+def t_explicit_stack(a, b):
+    out = []
+    stack = [(iter([(a, 1), ("sub", 2), (b, 3)]), None)]
+    while stack:
+        it, outer = stack[-1]
+        for elem, e in it:
+            if outer is not None:
+                e = e * outer
+            if elem == "sub":
+                stack.append((iter([(b, 5)]), e))
+                break
+            out.append((elem, e))
+        else:
+            stack.pop()
+    return out
